@@ -121,6 +121,13 @@ def run_c17(R, tier, rng):
             C.cmp(f"ufunc {ufn} {tag} scalar-L {s!r}", "ufunc-scalar-L/" + ufn, nt, lambda: dense_rows(uf(s, mks())), lambda: [kl(uf(s, a)) for a in SA], py=f"rl = from_ragged({safe_rows!r}, {dt}); np.{ufn}({s!r}, rl).to_array()")
             C.cmp(f"ufunc {ufn} {tag} column-R {col!r}", "ufunc-column-R/" + ufn, nt, lambda: dense_rows(uf(mk(), colarr)), lambda: [kl(uf(a, colarr[i, 0])) for i, a in enumerate(A)], py=pyb + f"; np.{ufn}(rl, np.array({col!r})[:, None]).to_array()")
             C.cmp(f"ufunc {ufn} {tag} column-L {col!r}", "ufunc-column-L/" + ufn, nt, lambda: dense_rows(uf(colarr, mks())), lambda: [kl(uf(colarr[i, 0], a)) for i, a in enumerate(SA)], py=f"rl = from_ragged({safe_rows!r}, {dt}); np.{ufn}(np.array({col!r})[:, None], rl).to_array()")
+        if dt in ("int64", "float64", "int8") and nr >= 2:
+            bigc = np.array([[1e17, 1.0, 3.0, float("inf"), 2.0][(t + i) % 5] for i in range(nr)])[:, None]
+            with np.errstate(all="ignore"):
+                C.cmp(f"ufunc multiply {tag} big-float-column-R", "ufunc-column-R/big-float", nt, lambda: dense_rows(np.multiply(mk(), bigc)), lambda: [kl(np.multiply(a, bigc[i, 0])) for i, a in enumerate(A)],
+                      py=pyb + f"; np.multiply(rl, np.array({bigc.ravel().tolist()!r})[:, None]).to_array()")
+                C.cmp(f"ufunc add {tag} big-float-column-L", "ufunc-column-L/big-float", nt, lambda: dense_rows(np.add(bigc, mk())), lambda: [kl(np.add(bigc[i, 0], a)) for i, a in enumerate(A)],
+                      py=pyb + f"; np.add(np.array({bigc.ravel().tolist()!r})[:, None], rl).to_array()")
         for ufn in ("negative", "absolute", "logical_not", "square"):
             uf = getattr(np, ufn)
             if ufn == "negative" and dt == "bool": continue
@@ -154,7 +161,24 @@ def run_c17(R, tier, rng):
         s = al[(t + 1) % len(al)]; s = bool(s) if dt == "bool" else float(s) if dt == "float64" else int(s)
         C.cmp(f"ufunc add {mtag} scalar {s!r}", "matrix/ufunc", nt, lambda: kl(np.add(mm(), s).to_array()), lambda: kl(np.add(MA, s)))
         C.cmp(f"ufunc subtract-L {mtag} scalar {s!r}", "matrix/ufunc", nt, lambda: kl(np.subtract(s, mm()).to_array()), lambda: kl(np.subtract(s, MA))) if dt != "bool" else None
+        # the same matrix in other memory layouts (Fortran order, a transposed view, a strided view): what is encoded is the matrix, not its buffer
+        for lname, mkl in (("fortran", lambda: np.asfortranarray(MA)), ("transposed-view", lambda: np.ascontiguousarray(MA.T).T), ("strided", lambda: np.repeat(MA, 2, axis=1)[:, ::2])):
+            C.cmp(f"decode/{lname} {mtag}", "matrix/layout", nt, lambda: [kl(RunLength2dArray.from_array(mkl()).to_array()), kl(np.asarray(RunLength2dArray.from_array(mkl()).sum(axis=-1)))] if dt != "bool" else [kl(RunLength2dArray.from_array(mkl()).to_array()), None],
+                  lambda: [kl(MA), kl(MA.sum(axis=-1)) if dt != "bool" else None], py=f"RunLength2dArray.from_array(<{lname} layout of np.array({M!r}, dtype='{dt}')>).to_array()")
         # ---- intervals: row k is the indicator of [start_k, end_k)
+        Li = rng.randint(1, 8); ki = rng.randint(1, 4)
+        sti = [rng.randrange(0, Li) for _ in range(ki)]; eni = [rng.randint(s0 + 1, Li) for s0 in sti]
+        if t % 2 == 0: eni[0] = Li
+        if t % 3 == 0: sti[-1] = 0; eni[-1] = Li
+        IV = np.array([[1 if s0 <= p < e0 else 0 for p in range(Li)] for s0, e0 in zip(sti, eni)])
+        mi = lambda: RunLength2dArray.from_intervals(np.array(sti), np.array(eni), Li)
+        itag = f"from_intervals({sti}, {eni}, {Li})"
+        C.cmp(f"intervals row-sum {itag}", "intervals/row-sum", ki >= 2, lambda: kl(np.asarray(mi().sum(axis=-1))), lambda: kl(IV.sum(axis=-1)), py=f"RunLength2dArray.{itag}.sum(axis=-1)")
+        C.cmp(f"intervals col-sum {itag}", "intervals/col-sum", ki >= 2, lambda: kl(np.asarray(mi().sum(axis=0).to_array())), lambda: kl(IV.sum(axis=0)), py=f"RunLength2dArray.{itag}.sum(axis=0).to_array()")
+        C.cmp(f"intervals any/all {itag}", "intervals/any-all", ki >= 2, lambda: [kl(np.asarray(mi().any(axis=-1))), kl(np.asarray(mi().all(axis=-1))), kl(np.asarray(mi().any(axis=0).to_array(), dtype=bool))],
+              lambda: [kl(IV.any(axis=-1)), kl(IV.all(axis=-1)), kl(IV.any(axis=0))], py=f"m = RunLength2dArray.{itag}; m.any(axis=-1), m.all(axis=-1), m.any(axis=0)")
+        C.cmp(f"intervals rows+ufunc {itag}", "intervals/rows-ufunc", ki >= 2, lambda: [kl(np.asarray(mi()[::-1].to_array()).astype(int)), kl(np.asarray((mi() * 3).to_array()).astype(int)), kl(np.asarray((mi() * 3).sum(axis=-1)))],
+              lambda: [kl(IV[::-1]), kl(IV * 3), kl((IV * 3).sum(axis=-1))], py=f"m = RunLength2dArray.{itag}; m[::-1].to_array(), (m*3).to_array(), (m*3).sum(axis=-1)")
         L = rng.randint(1, 8); k = rng.randint(1, 4)
         st = [rng.randrange(0, L) for _ in range(k)]; en = [rng.randint(s0 + 1, L) for s0 in st]
         C.cmp(f"from_intervals {st} {en} {L}", "intervals", k >= 2, lambda: kl(np.asarray(RunLength2dArray.from_intervals(np.array(st), np.array(en), L).to_array(), dtype=bool)),
